@@ -24,6 +24,8 @@ func init() {
 			{ID: "C20.R1", Text: "waiter: signal channel buffered; Wait = dispatch error | select{ctx.Done→op.Cancel(), signal} then ctx.Err()", Run: c20r1},
 			{ID: "C20.R2", Text: "callbacks: Resolve exactly once and before any send on every path; sends fit the channel capacity; every awaited channel is sent to on every path", Run: c20r2},
 			{ID: "C20.R3", Text: "the callback's error reaches the wrapper's error result; results are dereferenced only under err==nil", Run: c20r3},
+			{ID: "C20.R5", Text: "Ping reports success only when both the data and the management service answered: the error handed to the waiter is non-nil ⇔ the operation failed ∨ either endpoint is missing", Run: pingOutcome},
+			{ID: "C20.R6", Text: "checkpoint writes are confirmed or reported: every storage primitive's error in the Metadata.Save backends reaches the result (same rule as C05.R5)", Run: c05r5},
 			{ID: "C20.R4", Text: "a deadline exists for every operation (own deadline from time.Now, or a deadline-bearing context at every call site)", Run: c20r4},
 		},
 	})
@@ -554,4 +556,91 @@ func existsErrPathAvoiding(fn *ssa.Function, errP *ssa.Parameter, forward func(s
 	}
 	seen[fn.Blocks[0]] = true
 	return walk(fn.Blocks[0])
+}
+
+// pingOutcome evaluates the Ping callback exhaustively over (err nil?, data endpoint found?, management endpoint found?).
+func pingOutcome(c *Ctx, id string) {
+	w := c.W
+	var site *asyncSite
+	for _, s := range asyncSites(w) {
+		if s.Op == "Ping" {
+			site = s
+		}
+	}
+	c.need(site != nil && site.Callback != nil, id, "the Ping call site with a callback literal")
+	cb := site.Callback
+	var errP *ssa.Parameter
+	for _, p := range cb.Params {
+		if types.Identical(p.Type(), types.Universe.Lookup("error").Type()) {
+			errP = p
+		}
+	}
+	c.need(errP != nil, id, "error parameter of the Ping callback")
+	// which endpoint constant is which: read the service-type arguments of getServiceEndpoint from the two stores
+	h := &Harness{Fn: cb, Bools: []string{errP.Name() + "==nil", "memdFound", "mgmtFound"}, Quiet: []string{"couchbase.printLatenciesOfServiceEndpoints", "errors.New"},
+		NoInline: map[string]bool{"couchbase.getServiceEndpoint": true, "couchbase.printLatenciesOfServiceEndpoints": true},
+		Args: map[string]func(st *State) AV{},
+		Oracle: func(st *State, name string, args []AV, res *types.Tuple) ([]AV, bool) {
+			switch name {
+			case "couchbase.getServiceEndpoint":
+				which := "memdFound"
+				if len(args) == 2 && avString(args[1]) == "2" { // gocbcore.MgmtService
+					which = "mgmtFound"
+				}
+				if st.B(which) {
+					return []AV{avStr{isC: true, conc: "endpoint-" + which}}, true
+				}
+				return []AV{avStr{isC: true, conc: ""}}, true
+			case "errors.New":
+				return []AV{avIface{sym: "unhealthy"}}, true
+			}
+			if strings.HasSuffix(name, ".Resolve") {
+				return nil, true
+			}
+			return nil, false
+		}}
+	// the captured result struct starts empty (`var pingResult models.PingResult` in the wrapper): its string fields are ""
+	resName := ""
+	for _, fv := range cb.FreeVars {
+		if pt, ok := fv.Type().(*types.Pointer); ok && recvTypeName(pt.Elem()) == "PingResult" {
+			resName = fv.Name()
+		}
+	}
+	h.Input = func(st *State, sym string, t types.Type) AV {
+		if resName != "" && strings.HasPrefix(sym, resName+".") {
+			if b, ok := t.Underlying().(*types.Basic); ok && b.Info()&types.IsString != 0 {
+				return avStr{isC: true, conc: ""}
+			}
+		}
+		return nil
+	}
+	c.oae(id, "ping-callback@"+fname(cb), cb.Pos(), h, func(st *State, out *Outcome) string {
+		if out.Panicked {
+			return "panics"
+		}
+		var sent AV
+		n := 0
+		for _, e := range out.Trace {
+			if strings.HasPrefix(e.Name, "send:") {
+				sent = e.Args[0]
+				n++
+			}
+		}
+		if n != 1 {
+			return fmt.Sprintf("%d sends to the waiter", n)
+		}
+		i, ok := sent.(avIface)
+		if !ok {
+			return "outcome not determined: " + avString(sent)
+		}
+		opFailed := !st.B(errP.Name() + "==nil")
+		wantErr := opFailed || !st.B("memdFound") || !st.B("mgmtFound")
+		if opFailed {
+			wantErr = true // endpoints are only looked up on success
+		}
+		if wantErr == i.isNil {
+			return fmt.Sprintf("reports success=%v, expected success=%v (operation failed: %v, data endpoint: %v, management endpoint: %v)", i.isNil, !wantErr, opFailed, st.B("memdFound"), st.B("mgmtFound"))
+		}
+		return ""
+	}, "error to the waiter is nil ⇔ err==nil ∧ data endpoint found ∧ management endpoint found")
 }
